@@ -1,17 +1,25 @@
 def _c24_classes(i, o):
-    cls = ['trigger=' + {0: 'never', 1: 'instant', 2: 'interval', 3: 'open'}.get(i[0][0], '?'), 'ops=%d' % min(len(i[3]), 30)]
-    for op in i[3]:
+    cls = ['trigger=' + {0: 'never', 1: 'instant', 2: 'interval', 3: 'open'}.get(i[0][0], '?'), 'ops=%d' % min(len(i[4]), 30),
+           'sync_config=' + ('always_synced' if i[3] == [0, 0] else ('timer_only' if i[3][0] == 0 else ('peers_no_timer' if i[3][1] == 0 else 'peers_and_timer')))]
+    for op in i[4]:
         k = op[0]
-        cls.append('op=' + {0: 'tick', 1: 'manual', 2: 'sync_update', 3: 'db_import', 4: 'advance'}.get(k, '?'))
+        cls.append('op=' + {0: 'tick', 1: 'manual', 2: 'direct_update', 3: 'db_change', 4: 'advance', 5: 'peers', 6: 'p2p_import'}.get(k, '?'))
         if k == 0:
             cls.append('leader=' + {0: 'error', 1: 'follower', 2: 'leader', 3: 'unreconciled'}.get(op[3][0], '?'))
-        if k in (0, 1) and op[-1]:
-            cls.append('fail_stage=%d' % op[-1][1])
+            if op[5]:
+                cls.append('import_during_iteration')
+        if k in (0, 1) and op[4 if k == 0 else 5]:
+            cls.append('fail_stage=%d' % op[4 if k == 0 else 5][1])
     if isinstance(o, list):
         for ob in o:
-            if isinstance(ob, list) and len(ob) == 3:
-                for e in ob[2]:
-                    cls.append('call=' + {0: 'leader_state', 1: 'produce', 2: 'seal', 3: 'commit_result', 4: 'execute_and_commit', 5: 'release'}.get(e[0], '?'))
+            if isinstance(ob, list) and len(ob) == 4:
+                if isinstance(ob[0], list) and len(ob[0]) == 4:
+                    cls.append('ensure_synced=' + {0: 'passed', 1: 'blocked'}.get(ob[0][0], '?'))
+                    cls.append('run=' + {0: 'continue', 1: 'error_continue', 2: 'stop', 3: 'blocked'}.get(ob[0][3][0] if ob[0][3] else -1, '?'))
+                cls.append('sync=' + ('synced' if ob[2] else 'not_synced'))
+                for e in ob[3]:
+                    cls.append('call=' + {0: 'leader_state', 1: 'produce', 2: 'seal', 3: 'commit_result', 4: 'execute_and_commit', 5: 'release',
+                                          6: 'announced', 7: 'p2p'}.get(e[0], '?'))
     return cls
 
 
@@ -19,23 +27,32 @@ PROPS = {
     'C24': dict(
         id='C24', cluster='PoA', crate='h-poa', tag=24,
         n={'quick': 1500, 'thorough': 20000}, shard=100,
-        theorems=['requests_next_height', 'produce_block_contract', 'interval_deadline', 'block_time_vs_db_partial',
-                  'resync_keeps_timestamp', 'block_time_vs_db_refuted', 'exec_after_failed_import_refuted'],
+        theorems=['requests_next_height', 'produce_block_contract', 'interval_deadline', 'parse_flatten_inverse', 'op_okb_sound',
+                  'step_refines', 'step_passes', 'fstep_refines', 'frun_passes', 'produces_only_when_synced',
+                  'sync_published_iff_synced', 'sync_invb_meaning', 'block_time_vs_db_partial', 'resync_keeps_timestamp',
+                  'block_time_vs_db_refuted', 'a1_during_run_refuted', 'exec_after_failed_import_refuted', 'no_timer_never_synced'],
         classify=_c24_classes,
-        level='proof (partial)',
-        rule='random schedules of 1..16 (thorough 30) operations on the real MainTask (mock ports, paused tokio clock): iterations of the real run '
-             'loop with a scripted leader state (error / follower / leader / unreconciled batch given relative to the asked height, with per-block '
-             'import outcome, stale entries and gaps), manual production (start time given or derived, 0..3 blocks or one block with transactions), '
-             'sync-task updates and direct database imports at heights relative to last_height (below, equal, +1, +2), clock advances of '
-             '1/500/999/1000/1001/2500/10000 ms, wall clock mostly advancing (sometimes going back), signer unavailable, producer / seal / commit '
-             'failure of the k-th production, all four triggers (Interval 1/2/3/10 s, Open 1/2/5 s), timestamps next to u64::MAX in 4% of the cases. '
-             'Observed per operation: result, (last_height, last_timestamp, last_block_created, Instant::now) and the ordered port-call log with '
-             'heights, times, deadline and call instant. non-trivial = distinct schedule with a non-empty observation',
-        assumptions=['the sync task stays Synced on the initial header (no network block stream in the harness): ensure_synced is a no-op; '
-                     'sync-task updates are injected through update_last_block_values',
+        level='proof',
+        rule='random schedules of 1..16 (thorough 30) operations on the real MainTask and its real SyncTask (mock ports, paused tokio clock, '
+             'min_connected_reserved_peers 0..2, time_until_synced 0/700/1300/2300 ms): ensure_synced followed by an iteration of the real run loop '
+             '(both abandoned after 100 s of virtual time when they do not return) with a scripted leader state (error / follower / leader / '
+             'unreconciled batch given relative to the asked height, with per-block import outcome, stale entries and gaps) and optionally a block '
+             'imported by another path right before the database height is read; manual production (start time given or derived, 0..3 blocks or one '
+             'block with transactions); reserved-peer counts 0..3; blocks imported by another path at heights relative to last_height (below, equal, '
+             '+1, +2), announced on the importer block stream like the real importer does (so are the blocks committed by the task, as local, and the '
+             'reconciliation imports, as network); silent database changes; direct update_last_block_values; clock advances of '
+             '1/500/999/1000/1001/2500/10000 ms; wall clock mostly advancing (sometimes going back); signer unavailable; producer / seal / commit '
+             'failure of the k-th production; all four triggers (Interval 1/2/3/10 s, Open 1/2/5 s); timestamps next to u64::MAX in 4% of the cases. '
+             'Observed per operation: result (for a tick: outcome of ensure_synced, state and published sync state at that point, outcome of the '
+             'iteration), (last_height, last_timestamp, last_block_created, Instant::now, database), the state published by the sync task, and the '
+             'ordered log of port calls and block-stream announcements with heights, times, deadline and instant. '
+             'non-trivial = distinct schedule with a non-empty observation',
+        assumptions=['time_until_synced values are chosen so that a sync timer tick never falls on an instant at which the main task wakes up '
+                     '(the order in which two tasks woken at the same instant run is the scheduler\'s choice and is not modelled)',
+                     'announcements are handled by the sync task when the main task next yields to let the clock advance (or at the end of the '
+                     'operation); the main task yields only on timers',
+                     'manual production is driven through the hook, not through the request channel (no ensure_synced before it)',
                      'no predefined blocks; the producer returns within production_timeout',
-                     'heights stay below u32::MAX (next_height panics there)',
-                     'Pcheck (op_okb) is a decidable conjunction of local trace predicates (seal order, height/time chains, deadline, no advance '
-                     'without a commit); its declarative reading is not proved separately in this round'],
+                     'heights stay below u32::MAX (next_height panics there)'],
     ),
 }
